@@ -4,7 +4,8 @@
 cd /verif
 for D in seeded/*/; do
   ID=$(basename "$D"); P=${ID%-*}; V=${ID#*-}
-  [ -d "/tmp/seed/$P-out/$V" ] || { mkdir -p "/tmp/seed/$P-out/$V"; cp -r "$D"/patch.diff "$D"/demo "$D"/meta.json "/tmp/seed/$P-out/$V/" 2>/dev/null; }
+  # seeded/ is the source of truth: stage a copy where tools_seed.sh expects a delivery
+  rm -rf "/tmp/seed/$P-out/$V"; mkdir -p "/tmp/seed/$P-out/$V"; cp -r "$D"/patch.diff "$D"/demo "$D"/meta.json "/tmp/seed/$P-out/$V/" 2>/dev/null
   CHECKS="$P"
   case "$ID" in C05-B) CHECKS="C05 C18";; C14-A) CHECKS="C14 C07";; esac
   SEED_SKIP_TESTS=1 ./tools_seed.sh "$P" "$V" $CHECKS 2>&1 | tail -1
